@@ -58,7 +58,10 @@ def gen_case(rng, name):
         # the weighter has been used before, on another problem with the same criteria
         wn = rng.randint(3, 8)
         warm = {"matrix": [[float(rng.randint(1, 60)) + rng.random() for _ in range(m)] for _ in range(wn)]}
-    return {"warm": warm, "matrix": mtx, "objectives": objs, "weights": gen.weights(rng, m),
+    extra = {}
+    if mode in ("tiny123", "int") and all(float(x).is_integer() for r in mtx for x in r) and rng.random() < 0.5:
+        extra["dtypes"] = ["int64"] * m         # whole numbers stored as integers
+    return {**extra, "warm": warm, "matrix": mtx, "objectives": objs, "weights": gen.weights(rng, m),
             "weights2": gen.weights(rng, m), "perm_r": perm_r, "perm_c": perm_c,
             "alternatives": gen.labels(rng, n, gen.LABEL_POOL_A, "A", kinds=False),
             "criteria": gen.labels(rng, m, gen.LABEL_POOL_C, "C", kinds=False), "tf": cfg, "mode": mode}
